@@ -128,7 +128,10 @@ def run_c08(pid):
                              "pcm": pcm_spec("walk", 100 + ch * 7 + bps, frames), "writes": c["writes"],
                              "pcm_id": ch * 100 + bps, "opts_id": 1, "tag": "gen",
                              # every other stereo 16-bit run goes through the CD-DA convenience constructor: same group, same bytes
-                             "cdda": ch == 2 and bps == 16 and len(jobs) % 2 == 1})
+                             "cdda": ch == 2 and bps == 16 and len(jobs) % 2 == 1,
+                             # every third channel-writer run also makes calls that must be refused (unequal channel lengths) on the way
+                             **({"refuse_before": [k for k in range(len(c["writes"])) if k % 2 == 1 or len(c["writes"]) == 1]}
+                                if fe == "channel" and ch >= 2 and len(jobs) % 3 == 0 else {})})
     # ---- every single split point, inputs of 2.5 blocks, all front ends
     rnd = random.Random(seed() * 31 + 8)
     for (ch, bps, frames) in ((1, 16, 40), (2, 16, 40), (2, 24, 33)) + (((4, 8, 47), (8, 32, 35), (1, 12, 48)) if t == "thorough" else ()):
